@@ -119,7 +119,7 @@ func runC07(ctx *Ctx) {
 		maxLen, nkeys = 512, 22
 	}
 	keys := keyAlphabet(nkeys)
-	r.Rule = fmt.Sprintf("full product: alg{NEA0,NEA1,NEA2,NIA1,NIA2} x len 1..%d x BEARER 0..31 x DIR 0..1 x COUNT %v x %d keys x %d data patterns (thorough: lengths>96 use bearers {0,1,31} and 6 keys), plus long lengths 2^k-1,2^k,2^k+1,2^k+3,2^k+4 for 2^k=1024..8192 (65536 in thorough) x 2 directions x 2 COUNTs, "+
+	r.Rule = fmt.Sprintf("full product: alg{NEA0,NEA1,NEA2,NIA1,NIA2} x len 1..%d x BEARER 0..31 x DIR 0..1 x COUNT %v x %d keys x %d data patterns (thorough: lengths>96 use bearers {0,1,31} and 6 keys), plus long lengths 2^k-1,2^k,2^k+1,2^k+3,2^k+4 for 2^k=1024..8192 (65536 in thorough) and every residue mod 16 above 1490..1553, 2040, 3000, 4090, 5000, 9000, 20000 (thorough: every length 1025..2300) x 2 directions x 2 COUNTs, and 2^20-1..2^20+33 (beyond 65536 cipher blocks), "+
 		"plus all operation sequences of depth 2 and 3 over 12 operations (result independent of earlier calls), plus 4x256 SNOW 3G table entries; oracle: independent refcrypto (ciphertext xor plaintext == reference keystream on every octet, MAC equality, twice = identity); "+
 		"every case has a distinct parameter tuple by construction and all are non-trivial (each exercises the algorithm on non-empty data)", maxLen, counts, nkeys, len(pats))
 	r.Assume("refcrypto anchors: TS 35.207 set 1, RFC 4493, TS 33.401 C.1 EEA2 set 1, SNOW 3G set 1 keystream, UEA2 set 1; no published anchor for the GF(2^64) step of 128-EIA1 (reference written from TS 35.215 4.4 with a different multiplication algorithm)",
@@ -184,11 +184,40 @@ func runC07(ctx *Ctx) {
 		longLens = append(longLens, n-1, n, n+1, n+3, n+4)
 	}
 	longLens = append(longLens, 1500, 2000, 3000, 5000)
+	// every residue mod 16 above several sizes at which an implementation may switch strategy (MTU-like sizes, pages),
+	// densely around 1500; and beyond 65536 AES blocks / 2^18 SNOW 3G words (1 MiB)
+	for _, base := range []int{1490, 1506, 1522, 1538, 2040, 3000, 4090, 5000, 9000, 20000} {
+		for n := base; n < base+16; n++ {
+			longLens = append(longLens, n)
+		}
+	}
+	if ctx.Thorough {
+		for n := 1025; n <= 2300; n++ {
+			longLens = append(longLens, n)
+		}
+	}
+	for _, d := range []int{-1, 0, 1, 15, 16, 17, 33} {
+		longLens = append(longLens, 1<<20+d)
+	}
+	{
+		seen := map[int]bool{}
+		uniq := longLens[:0]
+		for _, n := range longLens {
+			if !seen[n] {
+				seen[n] = true
+				uniq = append(uniq, n)
+			}
+		}
+		longLens = uniq
+	}
 	if ctx.IsChild() {
 		ParallelFor(r, len(longLens)*len(algs), func(l *report.Local, i int) {
 			n, a := longLens[i/len(algs)], algs[i%len(algs)]
 			for _, dir := range []uint8{0, 1} {
 				for _, c := range []uint32{0, 0xffffff} {
+					if n > 100000 && (dir == 1 || c != 0 || (!ctx.Thorough && (a == 1 || a == 11) && n != 1<<20+17)) {
+						continue // the 1 MiB messages once per algorithm (quick: one length for the SNOW 3G algorithms, whose library code is slow)
+					}
 					o := c07op{a, keys[2], c, 1, dir, n, 2}
 					out, key, detail := c07run(o)
 					l.CaseN(true, report.H(out))
